@@ -704,7 +704,7 @@ impl<'a> GeneratorState<'a> {
         self.functions_code.insert(f.clone(), AssemblyCode::new());
         let saved = self.current_function.replace(f.clone());
         self.protected = protected;
-        let r = self.asm(mnemonic, &operand, 0, high_byte);
+        let r = self.asm(mnemonic, &operand, 1, high_byte);
         self.protected = false;
         self.current_function = saved;
         let code = self.functions_code.remove(&f).unwrap();
